@@ -19,9 +19,10 @@ def fd_check_gbasis(ctx, m, e, ename, info, ncells=2):
     # an interior reference point
     rd = m.elem.refdom
     P = np.asarray(rd.p, dtype=float)
-    wts = np.array([rng.randint(1, 5) for _ in range(P.shape[1])], dtype=float)
-    wts /= wts.sum()
-    X0 = (P * wts).sum(axis=1)[:, None]          # (dim, 1)
+    # several DIFFERENT interior points evaluated in one call (per-point quantities must not be shared)
+    wts = np.array([[rng.randint(1, 5) for _ in range(P.shape[1])] for _ in range(3)], dtype=float)
+    wts /= wts.sum(axis=1)[:, None]
+    X0 = (wts @ P.T).T                            # (dim, 3)
     hscale = 1e-3
     # the power basis of globally defined elements is not scaled to the cell: the inverse Vandermonde
     # matrix loses several digits on degree-5 elements, so their finite differences are compared more loosely
@@ -95,12 +96,20 @@ def fd_check_gbasis(ctx, m, e, ename, info, ncells=2):
                     r = cmp(fld.curl, fd, "curl")
                     if r:
                         return r
-                if fld.hess is not None and fld.grad is not None and order == 0:
-                    fd = np.array([d_dx(lambda f: np.asarray(f.grad), j) for j in range(dim)])   # [j][a]
-                    fd = np.moveaxis(fd, 0, 1)                                                   # [a][j]
-                    r = cmp(fld.hess, fd, "hess")
-                    if r:
-                        return r
+                if order == 0:
+                    # value, grad, hess, grad3, grad4, ...: each is the derivative of the previous one, the new
+                    # direction being the LAST tensor index
+                    chain = ["grad", "hess", "grad3", "grad4", "grad5", "grad6"]
+                    for a, b in zip(chain, chain[1:]):
+                        if getattr(fld, a, None) is None or getattr(fld, b, None) is None:
+                            break
+                        prev = np.asarray(getattr(fld, a))
+                        k = prev.ndim - 2
+                        fd = np.array([d_dx(lambda f, a=a: np.asarray(getattr(f, a)), j) for j in range(dim)])
+                        fd = np.moveaxis(fd, 0, k)
+                        r = cmp(getattr(fld, b), fd, b)
+                        if r:
+                            return r
     return None
 
 
@@ -320,5 +329,31 @@ def run(ctx):
                 except Exception as ex:
                     ctx.violation("lbasis raised " + exc_kind(ex), {"element": name, "err": repr(ex)},
                                   {"what": "raise-lbasis", "element": name})
+    # ---- wrappers: ElementVector / ElementDG / ElementComposite deliver the wrapped function and ITS derivative
+    from skfem import ElementVector, ElementDG, ElementComposite
+    for it in range(ctx.scale(12, 80)):
+        if ctx.time_left(0.97) < 0:
+            break
+        kind = rng.choice(["line", "tri", "quad", "tet", "hex"])
+        cands = [(n, f) for (n, f) in elements.pool()[kind] if "Skeleton" not in n
+                 and elements.family(f()) in ("h1", "hdiv", "hcurl")]
+        (n1, f1), (n2, f2) = rng.choice(cands), rng.choice(cands)
+        w = rng.choice(["vector", "dg", "composite"])
+        try:
+            if w == "vector" and elements.family(f1()) == "h1":
+                e, name = ElementVector(f1()), f"ElementVector({n1})"
+            elif w == "dg":
+                e, name = ElementDG(f1()), f"ElementDG({n1})"
+            else:
+                e, name = ElementComposite(f1(), f2()), f"ElementComposite({n1},{n2})"
+            m, info = meshes.gen_first_order(rng, kind, holes=False)
+            ctx.case({"element": name, "t": m.t.tolist(), "p": m.p.tolist()}, nontrivial=True)
+            ctx.count("mapped-wrapper:" + w)
+            r = fd_check_gbasis(ctx, m, e, name, info, ncells=1)
+        except Exception as ex:
+            r = ("derivative check of a wrapper raised " + exc_kind(ex), repr(ex))
+        if r:
+            ctx.violation(r[0], {"element": name, "mesh": meshes.mesh_descr(m), "detail": r[1]},
+                          {"what": "mapped-derivative", "element": name.split("(")[0]})
     if ctx.tier == "thorough" and not getattr(ctx, "no_lean", False):
         ctx.leanchecker(["SkfemVerif.Props.C09"])
